@@ -105,6 +105,35 @@ theorem foldl_compareStep (pred : Fld → Fld → Outcome) (ps : List (Fld × Fl
   | nil => simp [compareMatches]
   | cons p r ih => simp [List.foldl_cons, compareStep, ih, compareMatches]
 
+/-- one round of the loop of `FieldComparisonSuite.__init__` on (passed, failed, skipped) -/
+def bucketStep (acc : List Cmp × List Cmp × List Cmp) (c : Cmp) : List Cmp × List Cmp × List Cmp :=
+  match bucketOf c with
+  | .passed => (acc.1 ++ [c], acc.2.1, acc.2.2)
+  | .failed => (acc.1, acc.2.1 ++ [c], acc.2.2)
+  | .skipped => (acc.1, acc.2.1, acc.2.2 ++ [c])
+
+theorem foldl_bucketStep (cs : List Cmp) (P F S : List Cmp) :
+    cs.foldl bucketStep (P, F, S) =
+      (P ++ cs.filter (fun c => bucketOf c = .passed), F ++ cs.filter (fun c => bucketOf c = .failed),
+       S ++ cs.filter (fun c => bucketOf c = .skipped)) := by
+  induction cs generalizing P F S with
+  | nil => simp
+  | cons c r ih =>
+    simp only [List.foldl_cons, bucketStep]
+    cases h : bucketOf c <;> simp [ih, h]
+
+/-- an optional callable argument `arg` (`x = x or <default>`): either the caller's (truthy) object `v`, or `None` and
+    the default the external `dflt` builds is `v` -/
+def OrDefault (X : Ext) (arg : Val) (dflt : String) (v : Val) : Prop :=
+  (arg = v ∧ v.truthy = .ok true) ∨ (arg = .none ∧ X dflt [] = .ok v)
+
+/-- what evaluating `arg or <default>()` does, in the form the evaluated body contains -/
+theorem OrDefault.elim {X : Ext} {arg : Val} {dflt : String} {v : Val} (h : OrDefault X arg dflt v) :
+    ∃ t, arg.truthy = .ok t ∧ (if t = true then Res.ok arg else X dflt []) = .ok v := by
+  rcases h with ⟨rfl, ht⟩ | ⟨rfl, hd⟩
+  · exact ⟨true, ht, by simp⟩
+  · exact ⟨false, rfl, by simp [hd]⟩
+
 section
 variable {X : Ext} {cv selV cbV : Val} {strip : Nat → Nat} {incl excl : Nat → Bool}
   {pred : Fld → Fld → Outcome} {excOf : Fld → Fld → String} {cbRes : Cmp → Val}
